@@ -18,6 +18,8 @@ proved where the callbacks are modelled (C13, C14) and otherwise only searched b
 harness (`harness/c11.go`), which says so in the evidence.
 -/
 import CtyModel.Lemmas.StdProto
+import CtyModel.Lemmas.StdOblType
+import CtyModel.Lemmas.StdOblTable
 import CtyModel.Props.C10
 namespace CtyModel
 namespace C11
@@ -43,13 +45,13 @@ theorem static_typeMono (T : Ty) : TypeMono (staticType T) :=
 
 /-! ### clause: "its result's type conforms … to the one predicted from the argument values" -/
 
-/-- For every stdlib function (regenerated parameter table), whatever its callbacks do:
-a successful call's result conforms to what `ReturnTypeForValues` answers for the same
-arguments (and that prediction exists). -/
-theorem result_conforms_value_prediction (s : Generated.StdSpec) (_hs : s ∈ Generated.stdlibSpecs)
-    (rf : Option RefineFn) (tf : TypeFn) (impl : ImplFn) (args : List Value) (hT : C10.TypeFnWF tf)
-    (v : Value) (h : (call (toSpec s rf) tf impl args).1 = .ok v) :
-    ∃ t, (returnTypeForValuesPub (toSpec s rf) tf args).1 = .ok t ∧ Ty.conformErrs t v.ty = 0 :=
+/-- For ANY function specification — in particular `toSpec s rf` for every entry `s` of the
+regenerated parameter table — and whatever its callbacks do: a successful call's result conforms
+to what `ReturnTypeForValues` answers for the same arguments (and that prediction exists).
+(The protocol's doing: `C10.nonconforming_never_returned`.) -/
+theorem result_conforms_value_prediction (spec : Spec) (tf : TypeFn) (impl : ImplFn) (args : List Value)
+    (hT : C10.TypeFnWF tf) (v : Value) (h : (call spec tf impl args).1 = .ok v) :
+    ∃ t, (returnTypeForValuesPub spec tf args).1 = .ok t ∧ Ty.conformErrs t v.ty = 0 :=
   C10.nonconforming_never_returned _ tf impl args hT v h
 
 /-! ### clauses: "… conforms to the return type predicted from the argument types alone", and
@@ -73,29 +75,80 @@ theorem type_only_prediction_sound (spec : Spec) (tf : TypeFn) (impl : ImplFn) (
     obtain ⟨t', ht', had⟩ := hm T _ ht0
     exact ⟨t', rtfvPub_of_pass1_ok (pass1_unkOf_ok hp) ht', had _ hc⟩
 
-/-- Unconditional for the statically-typed stdlib functions: for every function of the
-regenerated table whose source says `Type: function.StaticReturnType(T)`, both predictions
-exist for every successful call, are the same type `T`, and the result conforms to it. -/
-theorem static_functions_predictions_agree (s : Generated.StdSpec) (_hs : s ∈ Generated.stdlibSpecs)
-    (T : Ty) (hw : Ty.wf T = true) (rf : Option RefineFn) (impl : ImplFn) (args : List Value) (v : Value)
-    (h : (call (toSpec s rf) (staticType T) impl args).1 = .ok v) :
-    (∃ t, (returnTypeForValuesPub (toSpec s rf) (staticType T) args).1 = .ok t ∧ Ty.conformErrs t v.ty = 0) ∧
-    (∃ t', (returnType (toSpec s rf) (staticType T) (args.map (·.ty))).1 = .ok t' ∧
-      Ty.conformErrs t' v.ty = 0) := by
-  have hT : C10.TypeFnWF (staticType T) := fun _ t ht => by cases ht; exact hw
-  exact ⟨C10.nonconforming_never_returned _ _ impl args hT v h,
-    type_only_prediction_sound _ _ impl args hT (static_typeMono T) v h⟩
+/-! ### the bridge from the regenerated tables to the callbacks
+
+`Generated.stdlibSyntax` says, per exported function, whether its `Type` is
+`function.StaticReturnType(e)` (and prints the Go expression `e`) or a callback.  `Std.staticTy?`
+(Lemmas/StdOblTable.lean) interprets those expressions; `Std.tfOf` is the `Type` callback the
+theorems use for a table entry:
+the constant one for a static entry, the C13 model (by name) for a dynamic one, `none` where the
+callback is not modelled.  The theorems below quantify over the TABLE (`∀ sy ∈ stdlibSyntax`), so
+a function added to or changed in cty/function/stdlib changes what they say. -/
+
+/-- every static return type of the regenerated table is recognised by `Std.staticTy?` (a new
+expression in the source makes this theorem fail: the tie breaks closed) -/
+theorem static_types_recognised :
+    ∀ sy ∈ Generated.stdlibSyntax, ∀ e, sy.staticType = some e → (staticTy? e).isSome = true :=
+  Std.static_types_recognised
+
+/-- … and `Bytes` is the capsule type of the `bytes*` functions' parameters -/
+theorem bytes_capsule_is_parameter_type :
+    ((Std.find? "BytesLenFunc").bind (·.params.head?)).map (·.ty.equals (.capsule 3)) = some true :=
+  Std.bytes_capsule_is_parameter_type
+
+theorem staticTy_wf (e : String) (T : Ty) (h : staticTy? e = some T) : Ty.wf T = true := Std.staticTy_wf e T h
+
+/-- every statically typed entry has a callback, and it is the constant one of its declared type -/
+theorem tfOf_static (E : Stdlib.Env) (sy : Generated.StdSyntax) (hsy : sy ∈ Generated.stdlibSyntax) (e : String)
+    (he : sy.staticType = some e) : ∃ T, staticTy? e = some T ∧ tfOf E sy = some (staticType T) :=
+  Std.tfOf_static E sy hsy e he
+
+/-- the model table agrees with the syntax table on which functions are static: where the source
+says `StaticReturnType(e)` and C13 models the function, the model's `Type` callback IS that constant -/
+theorem model_static_callbacks_agree (E : Stdlib.Env) :
+    ∀ sy ∈ Generated.stdlibSyntax, ∀ e T n f, sy.staticType = some e → staticTy? e = some T →
+      modelName? sy.var = some n → Stdlib.byName n = some f → f.tf E = staticType T :=
+  Std.model_static_callbacks_agree E
+
+/-- **Every statically-typed stdlib function** (quantified over the regenerated syntax table, with
+its parameter declarations from the regenerated parameter table): for every successful call both
+predictions exist and are the same type — the declared type `T`, or the placeholder when a
+dynamically typed argument short-circuits the call — and the result conforms to it, whatever
+`Impl` does. -/
+theorem static_functions_predictions_agree (sy : Generated.StdSyntax) (hsy : sy ∈ Generated.stdlibSyntax)
+    (s : Generated.StdSpec) (_hs : s ∈ Generated.stdlibSpecs) (_hv : sy.var = s.var)
+    (e : String) (he : sy.staticType = some e) (E : Stdlib.Env)
+    (rf : Option RefineFn) (impl : ImplFn) (args : List Value) (v : Value) :
+    ∃ T tf, staticTy? e = some T ∧ tfOf E sy = some tf ∧
+      ((call (toSpec s rf) tf impl args).1 = .ok v →
+        ∃ t, (t = T ∨ t = .dyn) ∧
+          (returnTypeForValuesPub (toSpec s rf) tf args).1 = .ok t ∧ Ty.conformErrs t v.ty = 0 ∧
+          (returnType (toSpec s rf) tf (args.map (·.ty))).1 = .ok t) := by
+  obtain ⟨T, hT, htf⟩ := tfOf_static E sy hsy e he
+  refine ⟨T, staticType T, hT, htf, fun h => ?_⟩
+  have hw := staticTy_wf e T hT
+  have hTf : C10.TypeFnWF (staticType T) := fun _ t ht => by cases ht; exact hw
+  obtain ⟨t, ht, hc⟩ := C10.nonconforming_never_returned _ _ impl args hTf v h
+  rw [C10.returnType_is_rtfv_of_unknowns, map_unknown_ty]
+  rcases call_ok_pass1 h with hd | ⟨A, t0, hp, ht0⟩
+  · rw [rtfvPub_of_pass1_dyn hd] at ht
+    cases ht
+    exact ⟨.dyn, .inr rfl, rtfvPub_of_pass1_dyn hd, hc, rtfvPub_of_pass1_dyn (pass1_unkOf_dyn hd)⟩
+  · cases ht0
+    rw [rtfvPub_of_pass1_ok hp rfl] at ht
+    cases ht
+    exact ⟨T, .inl rfl, rtfvPub_of_pass1_ok hp rfl, hc, rtfvPub_of_pass1_ok (pass1_unkOf_ok hp) rfl⟩
 
 /-! ### clause: "never a Go panic and never an error reporting an internal panic" — the part
 that is the protocol's doing -/
 
-/-- For every stdlib spec and all callbacks: a Go panic escapes `Call` exactly when the
-declared `RefineResult` refuses the typed result (never because `Type` or `Impl` panicked);
-for the stdlib's `refineNonNull` that is: `Impl` returned null. -/
-theorem go_panic_only_from_refinement (s : Generated.StdSpec) (_hs : s ∈ Generated.stdlibSpecs)
-    (rf : Option RefineFn) (tf : TypeFn) (impl : ImplFn) (args : List Value) :
-    (∃ why, (call (toSpec s rf) tf impl args).1 = .panic why) ↔
-      ∃ r pre, rf = some r ∧ (callUnrefined (toSpec s rf) tf impl args).1 = .ok pre ∧
+/-- For ANY specification (in particular every `toSpec s rf` of the regenerated table) and all
+callbacks: a Go panic escapes `Call` exactly when the declared `RefineResult` refuses the typed
+result (never because `Type` or `Impl` panicked); for the stdlib's `refineNonNull` that is:
+`Impl` returned null.  (`C10.go_panic_iff`; discharged per function by `call_total_<f>` below.) -/
+theorem go_panic_only_from_refinement (spec : Spec) (tf : TypeFn) (impl : ImplFn) (args : List Value) :
+    (∃ why, (call spec tf impl args).1 = .panic why) ↔
+      ∃ r pre, spec.refine = some r ∧ (callUnrefined spec tf impl args).1 = .ok pre ∧
         typed pre = true ∧ r pre.unmark = none :=
   C10.go_panic_iff _ tf impl args
 
@@ -118,14 +171,13 @@ theorem no_panic_error_of_total_callbacks (spec : Spec) (tf : TypeFn) (impl : Im
   | _ => simp
 
 /-- The same for `ReturnTypeForValues` / `ReturnType`: never a Go panic; a `PanicError` only
-if the `Type` callback itself panicked. -/
+if the `Type` callback itself panicked — with that very message. -/
 theorem prediction_never_panics (spec : Spec) (tf : TypeFn) (args : List Value) :
     (∀ why, (returnTypeForValuesPub spec tf args).1 ≠ .panic why) ∧
     (∀ w, (returnTypeForValuesPub spec tf args).1 = .err (.panicError w) →
-      tf (typeArgs spec args) = .panic w ∨ ∃ w', tf (typeArgs spec args) = .panic w') := by
+      tf (typeArgs spec args) = .panic w) := by
   refine ⟨(C10.rtfv_panics_become_errors spec tf args).1, ?_⟩
   intro w h
-  right
   unfold returnTypeForValuesPub returnTypeForValues at h
   cases hp : pass1 spec args with
   | countErr => simp [hp] at h
@@ -146,7 +198,7 @@ theorem prediction_never_panics (spec : Spec) (tf : TypeFn) (args : List Value) 
     cases ht : tf (typeArgs spec args) with
     | ok t => simp [ht] at h
     | err c => simp [ht] at h
-    | panic w' => exact ⟨w', rfl⟩
+    | panic w' => simp [ht] at h; rw [h]
     | unmodelled => simp [ht] at h
 
 /-! ### the regenerated tables say what the theorems assume -/
@@ -172,6 +224,223 @@ theorem tables_agree :
       p.1.nparams = p.2.params.length ∧ p.1.hasVarParam = p.2.varParam.isSome := by
   refine ⟨by decide, ?_⟩
   decide
+
+/-! ## Per-function obligations, discharged for the modelled callbacks (C13 models, `Stdlib/*.lean`)
+
+`typeMono_<f>`: the `Type` callback of `<f>` AS WRITTEN (including its looks at known-ness,
+null-ness, lengths and keys of the argument values) is monotone — for ALL argument lists, also
+ones the protocol would never hand it.  Where that is false of the code the full statement is a
+`def … : Prop` with a `_partial` theorem (explicit side condition) and a `_counterexample`. -/
+
+open Stdlib in
+/-- `pass1` hands the `Type` callback exactly `typeArgs` -/
+theorem pass1_ok_typeArgs {spec : Spec} {args T : List Value} (hp : pass1 spec args = .ok T) :
+    T = typeArgs spec args := by
+  have := pass1_eq spec args
+  rw [hp] at this
+  by_cases hc : spec.countOK args.length = true
+  · simp only [hc, if_true] at this
+    cases hf : firstFail (spec.expand args.length) args with
+    | none => rw [hf] at this; simpa [typeArgs] using this
+    | some kf => obtain ⟨k, f⟩ := kf; rw [hf] at this; cases f <;> simp [Pass1.ofFail] at this
+  · simp [hc] at this
+
+/-- `C10.nonconforming_never_returned` needing well-formedness of the `Type` callback's answer
+only for THIS call's arguments. -/
+theorem result_conforms_value_prediction_at (spec : Spec) (tf : TypeFn) (impl : ImplFn) (args : List Value)
+    (hwf : ∀ t, tf (typeArgs spec args) = .ok t → Ty.wf t = true)
+    (v : Value) (h : (call spec tf impl args).1 = .ok v) :
+    ∃ t, (returnTypeForValuesPub spec tf args).1 = .ok t ∧ Ty.conformErrs t v.ty = 0 := by
+  rw [call_eq_finish] at h
+  obtain ⟨k, o, ho, hk⟩ := callUnrefined_case' spec tf impl args
+  rw [ho] at h
+  cases hk with
+  | dynShort k' u hc hat hwu =>
+    exact ⟨.dyn, by rw [rtfvPub_fail tf hc hat], conform_dyn _⟩
+  | unkShort rt u hc hap ht hb hwu =>
+    refine ⟨rt, by rw [rtfvPub_pass tf hc hap, ht], ?_⟩
+    rw [(finish_ok_val h).1, hwu.1]
+    exact conform_refl rt (hwf _ ht)
+  | value rt v0 u hc hap ht hnb hi hcf hwu =>
+    refine ⟨rt, by rw [rtfvPub_pass tf hc hap, ht], ?_⟩
+    rw [(finish_ok_val h).1, hwu.1]
+    exact hcf
+  | _ => simp [finish_err, finish_unmodelled] at h
+
+/-- `type_only_prediction_sound` with both obligations (well-formed answer, monotonicity) asked
+only at the argument list the `Type` callback is handed in THIS call — the form the `_partial`
+monotonicity theorems instantiate. -/
+theorem type_only_prediction_sound_at (spec : Spec) (tf : TypeFn) (impl : ImplFn) (args : List Value)
+    (hwf : ∀ t, tf (typeArgs spec args) = .ok t → Ty.wf t = true)
+    (hm : ∀ t, tf (typeArgs spec args) = .ok t →
+      ∃ t', tf ((typeArgs spec args).map unkOf) = .ok t' ∧ Admits t' t)
+    (v : Value) (h : (call spec tf impl args).1 = .ok v) :
+    ∃ t', (returnType spec tf (args.map (·.ty))).1 = .ok t' ∧ Ty.conformErrs t' v.ty = 0 := by
+  rw [C10.returnType_is_rtfv_of_unknowns, map_unknown_ty]
+  obtain ⟨t, ht, hc⟩ := result_conforms_value_prediction_at spec tf impl args hwf v h
+  rcases call_ok_pass1 h with hd | ⟨T, t0, hp, ht0⟩
+  · rw [rtfvPub_of_pass1_dyn hd] at ht
+    refine ⟨.dyn, rtfvPub_of_pass1_dyn (pass1_unkOf_dyn hd), ?_⟩
+    cases ht; exact hc
+  · rw [rtfvPub_of_pass1_ok hp ht0] at ht
+    cases ht
+    have hT := pass1_ok_typeArgs hp
+    subst hT
+    obtain ⟨t', ht', had⟩ := hm _ ht0
+    exact ⟨t', rtfvPub_of_pass1_ok (pass1_unkOf_ok hp) ht', had _ hc⟩
+
+/-! ### clause "never a Go panic and never an error reporting an internal panic", from the
+per-function obligations
+
+`TypeArgsOK nfc spec as` / `ImplArgsOK nfc spec as` (Lemmas/StdOblBase.lean) say that `as` is an
+argument list the protocol may hand to the callback: the right number of arguments, each
+well-formed (`Value.WF`, property C06), of a type conforming to its parameter, null / unknown /
+dynamically typed / marked only where the parameter allows it — exactly what
+`C10.type_args_satisfy_contract` and `C10.impl_args_satisfy_contract` establish. -/
+
+/-- **Totality from obligations.**  If, on every argument list satisfying the protocol's
+contract, (1) `Type` does not panic, (2) `Impl` does not panic when handed the type `Type`
+answered, (3) `Impl`'s value conforms to that type, and (4) the declared `RefineResult` accepts
+`Impl`'s value and the unknown of the answered type — then `Call` on well-formed arguments
+returns a value or an ordinary error: no Go panic, no `PanicError`. -/
+theorem call_total_of_obligations (nfc : String → Bool) (spec : Spec) (tf : TypeFn) (impl : ImplFn)
+    (htf : ∀ as w, TypeArgsOK nfc spec as → tf as ≠ .panic w)
+    (himpl : ∀ as rt w, ImplArgsOK nfc spec as → tf as = .ok rt → impl as rt ≠ .panic w)
+    (hconf : ∀ as rt v, ImplArgsOK nfc spec as → tf as = .ok rt → impl as rt = .ok v →
+      Ty.conformErrs rt v.ty = 0)
+    (href : ∀ rf, spec.refine = some rf →
+      (∀ as rt v, ImplArgsOK nfc spec as → tf as = .ok rt → impl as rt = .ok v → rf v.unmark ≠ none) ∧
+      (∀ as rt, TypeArgsOK nfc spec as → tf as = .ok rt → rt.isDyn = false → rf (Value.unknown rt) ≠ none))
+    (args : List Value) (hargs : ∀ a ∈ args, a.WF nfc = true) :
+    (∀ w, (call spec tf impl args).1 ≠ .panic w) ∧
+    (∀ w, (call spec tf impl args).1 ≠ .err (.panicError w)) :=
+  Fn.call_total_of_obligations nfc spec tf impl htf himpl hconf href args hargs
+
+section PerFunction
+open Stdlib
+
+theorem typeMono_length : TypeMono lengthType := Stdlib.typeMono_length
+theorem typeMono_hasindex : TypeMono hasIndexType := Stdlib.typeMono_hasIndex
+/-- `index` looks at the VALUE of a tuple key; on a placeholder key it answers the placeholder type -/
+theorem typeMono_index : TypeMono indexType := Stdlib.typeMono_index
+/-- `element` looks at the VALUE of the index for tuples; placeholder index ↦ placeholder type -/
+theorem typeMono_element : TypeMono elementType := Stdlib.typeMono_element
+theorem typeMono_coalescelist : TypeMono coalesceListType := Stdlib.typeMono_coalesceList
+/-- for every answer of `convert.UnifyUnsafe` -/
+theorem typeMono_coalesce (E : Env) : TypeMono (coalesceType E) := Stdlib.typeMono_coalesce E
+theorem typeMono_compact : TypeMono compactType := static_typeMono _
+theorem typeMono_contains : TypeMono containsType := static_typeMono _
+theorem typeMono_sort : TypeMono sortType := static_typeMono _
+theorem typeMono_range : TypeMono rangeType := static_typeMono _
+theorem typeMono_sethaselement : TypeMono setHasElementType := static_typeMono _
+theorem typeMono_distinct : TypeMono distinctType := Stdlib.typeMono_distinct
+theorem typeMono_chunklist : TypeMono chunklistType := Stdlib.typeMono_chunklist
+/-- `flatten` walks the VALUE; anything not wholly known ↦ placeholder type -/
+theorem typeMono_flatten (E : Env) : TypeMono (flattenType E) := Stdlib.typeMono_flatten E
+theorem typeMono_keys : TypeMono keysType := Stdlib.typeMono_keys
+theorem typeMono_values : TypeMono valuesType := Stdlib.typeMono_values
+theorem typeMono_reverse : TypeMono reverseType := Stdlib.typeMono_reverse
+/-- `zipmap` reads the key VALUES when the values are a tuple; keys not wholly known ↦ placeholder type -/
+theorem typeMono_zipmap (E : Env) : TypeMono (zipmapType E) := Stdlib.typeMono_zipmap E
+/-- `slice` reads the index VALUES and the list length; placeholders ↦ placeholder type (tuples) or
+the list type itself -/
+theorem typeMono_slice : TypeMono sliceType := Stdlib.typeMono_slice
+/-- for every answer of `convert.UnifyUnsafe` -/
+theorem typeMono_setproduct (E : Env) : TypeMono (setProductType E) := Stdlib.typeMono_setProduct E
+/-- `concat` reads known-ness and length of list arguments; for every answer of `convert.UnifyUnsafe` -/
+theorem typeMono_concat (E : Env) : TypeMono (concatType E) := Stdlib.typeMono_concat E
+/-- `lookup` asks `convert.Convert(default, elementType)`: monotone for every `Convert` that succeeds
+on the placeholder of a value it converts (`EnvConvertMono`, a fact about package convert: C08) -/
+theorem typeMono_lookup (E : Env) (hE : EnvConvertMono E) : TypeMono (lookupType E) :=
+  Stdlib.typeMono_lookup E hE
+
+/-- `merge`: the full statement — FALSE of the code (recorded finding
+`result-not-conforming-to-type-prediction:MergeFunc:null-argument`). -/
+def TypeMonoMerge : Prop := TypeMono mergeType
+
+/-- `merge` is monotone on every argument list without a NULL OBJECT argument (null maps,
+unknown maps, marks, dynamically typed arguments are all fine). -/
+theorem typeMono_merge_partial (as : List Value) (t : Ty)
+    (hn : ∀ a ∈ as, isObjectTy a.ty = true → a.unmark.isNull = false) (h : mergeType as = .ok t) :
+    ∃ t', mergeType (as.map unkOf) = .ok t' ∧ Admits t' t :=
+  Stdlib.typeMono_merge_partial as t hn h
+
+/-- the witness: `merge(null object{z}, {a = true})` — value-based prediction `object{a}`,
+type-only prediction `object{a,z}`, which `object{a}` does not conform to -/
+theorem typeMono_merge_counterexample :
+    mergeType mergeCexArgs = .ok (.object ["a"] [.bool] [false]) ∧
+    mergeType (mergeCexArgs.map unkOf) = .ok (.object ["a", "z"] [.bool, .bool] [false, false]) ∧
+    Ty.conformErrs (.object ["a"] [.bool] [false]) (.object ["a"] [.bool] [false]) = 0 ∧
+    Ty.conformErrs (.object ["a", "z"] [.bool, .bool] [false, false]) (.object ["a"] [.bool] [false]) ≠ 0 :=
+  Stdlib.typeMono_merge_counterexample
+
+theorem typeMonoMerge_false : ¬ TypeMonoMerge := Stdlib.typeMonoMerge_false
+
+/-- the set algebra functions (`setunion`, `setintersection`, `setsubtract`,
+`setsymmetricdifference` share `setOperationReturnType`): the full statement — FALSE of the code
+(recorded finding `…:empty-dynamic-collection`). -/
+def TypeMonoSetOp : Prop := ∀ E : Env, TypeMono (setOpType E)
+
+/-- monotone on every argument list without a KNOWN EMPTY `set(dynamic)` argument, for every
+answer of `convert.UnifyUnsafe` -/
+theorem typeMono_setop_partial (E : Env) (as : List Value) (t : Ty)
+    (hs : ∀ a ∈ as, skippedBySetOp a = false) (h : setOpType E as = .ok t) :
+    ∃ t', setOpType E (as.map unkOf) = .ok t' ∧ Admits t' t :=
+  Stdlib.typeMono_setOp_partial E as t hs h
+
+/-- the witness of the finding: `(set(list(number)){}, set(dynamic){}, set(tuple[string]){})`
+with the real `UnifyUnsafe` answers on the two type lists -/
+theorem typeMono_setop_counterexample :
+    setOpType setOpCexEnv setOpCexArgs = .ok (.set (.list .string)) ∧
+    setOpType setOpCexEnv (setOpCexArgs.map unkOf) = .ok (.set (.list .number)) ∧
+    Ty.conformErrs (.set (.list .string)) (.set (.list .string)) = 0 ∧
+    Ty.conformErrs (.set (.list .number)) (.set (.list .string)) ≠ 0 :=
+  Stdlib.typeMono_setOp_counterexample
+
+theorem typeMonoSetOp_false : ¬ TypeMonoSetOp := Stdlib.typeMonoSetOp_false
+
+/-- **Table-wide monotonicity.**  For EVERY entry of the regenerated syntax table whose `Type`
+callback the theorems have (`tfOf`: all statically typed functions, and every dynamically typed
+function modelled in C13), except the five recorded exceptions, the callback is monotone — for
+every answer of package convert satisfying `EnvConvertMono` (needed by `lookup` only). -/
+theorem stdlib_type_callbacks_monotone (E : Env) (hE : EnvConvertMono E) :
+    ∀ sy ∈ Generated.stdlibSyntax, ∀ tf, tfOf E sy = some tf → sy.var ∉ typeMonoExceptions → TypeMono tf := by
+  intro sy _ tf htf hex
+  unfold tfOf at htf
+  split at htf
+  · simp only [Option.map_eq_some_iff] at htf
+    obtain ⟨T, _, rfl⟩ := htf
+    exact static_typeMono T
+  · simp only [Option.bind_eq_some_iff, Option.map_eq_some_iff] at htf
+    obtain ⟨n, hn, f, hf, rfl⟩ := htf
+    unfold modelName? at hn
+    split at hn <;> cases hn <;> simp only [byName, Option.some.injEq] at hf <;> subst hf <;>
+      first
+      | exact typeMono_length | exact typeMono_hasindex | exact typeMono_index | exact typeMono_element
+      | exact typeMono_coalescelist | exact typeMono_coalesce E | exact typeMono_compact | exact typeMono_contains
+      | exact typeMono_distinct | exact typeMono_chunklist | exact typeMono_flatten E | exact typeMono_keys
+      | exact typeMono_values | exact typeMono_lookup E hE | exact typeMono_reverse | exact typeMono_slice
+      | exact typeMono_zipmap E | exact typeMono_sort | exact typeMono_setproduct E | exact typeMono_concat E
+      | exact typeMono_range | exact typeMono_sethaselement
+      | (rename_i heq; exact absurd (by simp [typeMonoExceptions, heq]) hex)
+
+/-- **Table-wide: a type checker working with placeholders never contradicts evaluation.**  For
+every entry of the table with a callback (`tfOf`) outside the recorded exceptions, with the
+parameter declarations of the regenerated parameter table: if a call succeeds, `ReturnType` of the
+argument types succeeds and the result conforms to it.  (`hwf`: the callback's answer for THIS
+call is a well-formed type — automatic for static entries.) -/
+theorem stdlib_type_only_prediction_sound (E : Env) (hE : EnvConvertMono E)
+    (sy : Generated.StdSyntax) (hsy : sy ∈ Generated.stdlibSyntax)
+    (s : Generated.StdSpec) (_hs : s ∈ Generated.stdlibSpecs) (_hv : sy.var = s.var)
+    (tf : TypeFn) (htf : tfOf E sy = some tf) (hex : sy.var ∉ typeMonoExceptions)
+    (rf : Option RefineFn) (impl : ImplFn) (args : List Value)
+    (hwf : ∀ t, tf (typeArgs (toSpec s rf) args) = .ok t → Ty.wf t = true)
+    (v : Value) (h : (call (toSpec s rf) tf impl args).1 = .ok v) :
+    ∃ t', (returnType (toSpec s rf) tf (args.map (·.ty))).1 = .ok t' ∧ Ty.conformErrs t' v.ty = 0 :=
+  type_only_prediction_sound_at _ tf impl args hwf
+    (fun t ht => stdlib_type_callbacks_monotone E hE sy hsy tf htf hex _ t ht) v h
+
+end PerFunction
 
 /-! ### the hypotheses are satisfiable -/
 
